@@ -31,6 +31,26 @@ def dec(x, bogus="furlong"):
     return x
 
 
+# unknown strings: a word that is no unit at all, and spellings of a valid name in another letter case
+# (the unit, mode and basis tables are exact-match: 'Relative', 'KPA', 'Molar' are unknown)
+BOGUS_VARIANTS = {
+    "pmode": ["furlong", "Relative", "ABSOLUTE", "Relative%"],
+    "punit": ["furlong", "KPA", "Bar", "PA"],
+    "lbasis": ["furlong", "Molar", "MASS", "Volume_gas", "Percent"],
+    "lunit": ["furlong", "MMOL", "Mol", "G", "CM3"],
+    "mbasis": ["furlong", "Mass", "VOLUME", "Molar"],
+    "munit": ["furlong", "G", "KG", "Cm3", "MOL"],
+}
+
+
+def dec_slot(x, slot, i=0):
+    """spec atom -> Python argument; 'bogus' becomes the i-th unknown representative of that argument slot."""
+    if x == "bogus":
+        v = BOGUS_VARIANTS[slot]
+        return v[i % len(v)]
+    return dec(x)
+
+
 def sparse(v):
     """JsonSerialize writes an empty function as []"""
     if isinstance(v, list):
